@@ -279,6 +279,16 @@ func (e *Engine) setupIntrinsics() {
 	I["(time.Duration).String"] = func(e *Engine, s *State, t *Thread, f *Frame, args []Value, _ ssa.Value) (Value, bool) {
 		return ret(Str{S: "<duration>", Sym: true})
 	}
+	if paramInts["ufseconds"] != 0 {
+		I["(time.Duration).Seconds"] = func(e *Engine, s *State, t *Thread, f *Frame, args []Value, _ ssa.Value) (Value, bool) {
+			r := UFApp("uf_seconds", SFP, args[0].(*Term))
+			// contract of the uninterpreted symbol: a finite number of magnitude <= 2^34, sign of the duration
+			d := args[0].(*Term)
+			s.addPC(And(Not(FPIsNaN(r)), Not(FPIsInf(r)), FPLe(FPAbs(r), FPConst(17179869184.0)),
+				Eq(BVSlt(d, BVConst(64, 0)), FPLt(r, FPConst(0))), Eq(Eq(d, BVConst(64, 0)), FPEq(r, FPConst(0)))))
+			return ret(r)
+		}
+	}
 	I["time.Sleep"] = func(e *Engine, s *State, t *Thread, f *Frame, args []Value, _ ssa.Value) (Value, bool) {
 		return ret(nil)
 	}
